@@ -2,6 +2,7 @@ import Driver.Sched
 import Driver.Cycle
 import Driver.Auth
 import Driver.Hist
+import Driver.Cache
 import Driver.Defs
 import Driver.Glob
 import Driver.Params
@@ -10,6 +11,7 @@ import Driver.Load
 import Driver.Lock
 import Driver.Api
 import Driver.Cron
+import Driver.Stamp
 /- line-protocol oracle: `driver <mode>` reads stdin, writes one answer per request -/
 open Driver
 
@@ -33,6 +35,9 @@ def main (args : List String) : IO UInt32 := do
   | ["hist"] =>
     for l in Hist.run lines.toList do out.putStrLn l
     return 0
+  | ["cache"] =>
+    for l in Cache.run lines.toList do out.putStrLn l
+    return 0
   | ["cron"] =>
     for l in Cron.run lines.toList do out.putStrLn l
     return 0
@@ -53,6 +58,9 @@ def main (args : List String) : IO UInt32 := do
     return 0
   | ["log"] =>
     for l in lines do out.putStrLn (Log.runLine l)
+    return 0
+  | ["stamp"] =>
+    for l in lines do out.putStrLn (Stamp.runLine l)
     return 0
   | _ =>
     IO.eprintln "usage: driver sched|cycle|auth"
